@@ -29,6 +29,10 @@ type engineOpts struct {
 	ParseOnly bool   `json:"parse_only"`
 	Unreadable []string `json:"unreadable"`
 	MkDirs    []string `json:"mkdirs"` // create directories with these names (directory-instead-of-file)
+	// ChdirBeforeParse changes the working directory (relative to the scratch dir) after the file cache has been built and
+	// loaded and before Parse; with Decoy, the same relative context path below that directory holds a different tree.
+	ChdirBeforeParse string            `json:"chdir_before_parse"`
+	Decoy            map[string]string `json:"decoy"`
 }
 
 func engineConfig() *config.Config {
@@ -116,6 +120,22 @@ func init() {
 				res.ParseErr, res.ParseType = err.Error(), "load"
 				return
 			}
+		}
+		if o.ChdirBeforeParse != "" {
+			wd2 := filepath.Join(scratch, o.ChdirBeforeParse)
+			_ = os.MkdirAll(wd2, 0o755)
+			if !filepath.IsAbs(dirArg) {
+				for name, content := range o.Decoy {
+					p := filepath.Join(wd2, dirArg, name)
+					if !strings.HasPrefix(p, scratch+string(filepath.Separator)) || strings.HasPrefix(p, ctxDir+string(filepath.Separator)) {
+						res.ParseErr = "harness: decoy tree would not be a separate tree inside the scratch directory: " + p
+						return
+					}
+					_ = os.MkdirAll(filepath.Dir(p), 0o755)
+					_ = os.WriteFile(p, []byte(content), 0o644)
+				}
+			}
+			_ = os.Chdir(wd2)
 		}
 		splugin.Log("parse-call", "", 0, "", nil)
 		wf, err := flow.Parse(fc, key)
